@@ -5,6 +5,18 @@ HERE = os.path.dirname(os.path.dirname(os.path.abspath(__file__)))
 PROPS = [json.loads(l)['id'] for l in open(os.path.join(HERE, 'properties.jsonl'))]
 
 CLAIMED = {
+ 'C04': dict(
+   level='proof',
+   text='Lean 4 theorems for every expression, n and width >= 1: eval_iff_C / eval_fails_iff / eval_error_kinds / eval_value_range (the Evaluator regenerated '
+        'from lib/intexpr.py by py2lean computes exactly lazy C evaluation over Z under the all-intermediate-results-in-range side condition, and fails only with '
+        'overflow or division by zero otherwise); grammar_pin (the lexer rules, precedence ladder, productions and operator tables handed to rply, dumped from the '
+        'live objects each run, are plural.y\'s - by decide); parse_sound (the lexer + recursive-descent model, which corresponds with the real rply parser on all '
+        'token strings of length <= 4/5 and on grammar-directed strings, only accepts what the stratified C grammar derives, with that AST). Completeness of the '
+        'parser model is not yet proved: that direction rests on the correspondence and on the reference-parser falsifier.',
+   design='§6 C04',
+   note='Trusted: Lean kernel, standard axioms; py2lean + grammar dump; rply LALR construction is NOT modelled (tie = correspondence on the stated string sets); '
+        'Spec.mathEval, Spec.D, Spec.PluralY are my reading of ISO C / plural.y.',
+   technique='Lean 4 induction over translator-generated evaluator vs reference semantics; decide-pin of dumped grammar; RD-parser soundness proof; exhaustive small-string correspondence with rply'),
  'C05': dict(
    level='proof',
    text='Lean 4 theorems codomain_sound / codomain_none_fails / codomain_nocrash / codomain_interval_wf, proved by structural induction '
